@@ -64,7 +64,7 @@ common.install(
     corpus_traits=corpus_traits,
     template=any_template,
     mix=(4, 9, 7),
-    budgets=(4000, 80000),
+    budgets=(4000, 40000),
     decl="free",
     level_text="Exploration: end-to-end differential testing of optimize over generated programs, declarations, trait subsets and instances against clingo, projected on the output predicates.",
 )
